@@ -22,7 +22,9 @@ Norm(e) == [e EXCEPT !.eps = Range(@), !.res = Range(@)]
 TInit == /\ tid \in 1..Len(Traces) /\ l = 1 /\ obs = ObsInit /\ firstBad = 0
 
 TNext == /\ l <= Len(Traces[tid])
-         /\ obs' = ObsEvent(obs, Norm(Traces[tid][l]))
+         \* like the model, the monitor stops at the first event at which a clause is false:
+         \* `obs.bad' names the clauses false at that event, not later consequences
+         /\ obs' = IF obs.bad # {} THEN obs ELSE ObsEvent(obs, Norm(Traces[tid][l]))
          /\ firstBad' = IF firstBad = 0 /\ obs'.bad # {} THEN l ELSE firstBad
          /\ l' = l + 1
          /\ UNCHANGED tid
